@@ -83,7 +83,7 @@ def c20_run(ctx, search=False):
     max_n = 11 if ctx.tier == "quick" else 16
     shards = 8 if ctx.tier == "quick" else 16
     summary, cases = eval_bitcases(ctx, "sel", ["--max-n", max_n, "--shards", shards], "sel")
-    # larger n: the first steps of every (n,k) up to n = 18 (what room branching can request) and binom for all n <= 62
+    # larger n: the first steps of every (n,k) up to n = 18 (what room branching can request) and binom alone for all n <= 80 and larger n at the ends / middle
     s_p, cases_p = eval_bitcases(ctx, "selp", ["--min-n", max_n + 1, "--max-n", 18, "--steps", 40 if ctx.tier == "quick" else 400], "selp")
     s_b, cases_b = eval_bitcases(ctx, "selp", ["--min-n", 1, "--max-n", 0], "binom")
     cases = cases + cases_p + cases_b
@@ -110,8 +110,8 @@ def c20_run(ctx, search=False):
         "evaluations": len(cases),
         "distinct_nontrivial": len(nontrivial),
         "rule": "every (n,k) with 0 <= n <= %d and 0 <= k <= n+2 run on the real iterator to exhaustion (values, size_hint before every "
-                "next and after the final None, binom); for %d <= n <= 18 the first steps of every (n,k); binom for all n <= 62, k <= n+1 "
-                "(overflow panic of the debug build included); non-trivial = distinct (n,k,mode) with 1 <= k <= n (binom: n <= 57)" % (max_n, max_n + 1),
+                "next and after the final None, binom); for %d <= n <= 18 the first steps of every (n,k); binom alone for all n <= 80, k <= n+1 and for "
+                "n = 100, 128, 200, 500 at the ends and around the middle (counts beyond usize: saturation); non-trivial = distinct (n,k,mode) with 1 <= k <= n" % (max_n, max_n + 1),
         "exhaustive": True,
         "input_distribution": {"max_n": max_n, "index_vectors_yielded": summary.get("total_vectors"),
                                "cases_in_class_1<=k<=n": len(nontrivial), "cases_outside_class": len(cases) - len(nontrivial)},
@@ -1369,10 +1369,11 @@ REGISTRY = {
         explanation="C10_never_hangs (the subproblem tree is finite: a height drops along every child; with C04_no_deadlock every run ends); "
                     "C10_fixed_node / _fixed_total / _fixed_answered (current code: no panic site 1-10 is reachable for any generated subproblem, "
                     "every subproblem is answered, no worker dies -- hypotheses: valid instance and the size bound the program checks itself); "
+                    "C10_prealloc (panic site 11, the pre-allocation with util::binom -- defect D15, fixed by f71c4f2: no overflow, capacity <= 24310); "
                     "C10_document_* / C10_export_valid (accepted documents are valid instances up to three unchecked clauses). "
                     "The real binary is run on generated valid instances: exit 0 with a well-formed output or exit 1 with the message and "
                     "no output, no panic, no timeout; node-, gate- and solve-level outcomes compared with the model (debug build: overflow "
-                    "and debug_assert are panics); corpus/C10_solve.json (witness of defect D14) runs first.",
+                    "and debug_assert are panics; the gate stream includes WIDE cases with 60-70 equal courses); corpus/C10_solve.json (witness of defect D14) runs first.",
         trusted_base=["modelled, not verified: src/caobab.rs, src/bab.rs (tied by the node / gate / solve streams); main.rs exit-code decisions "
                       "are modelled in Cli.v and observed on the binary; memory exhaustion / running time not modelled"],
         assumptions=["valid instances (validb); the size bound (participants + course places <= 42947) is enforced by the program since fix 4b4a650"]),
@@ -1450,12 +1451,13 @@ REGISTRY = {
     },
     "C20": {
         "run": c20_run, "replay": c20_replay, "allow_axioms": (),
-        "explanation": "Theorems C20_enum/C20_iterator/C20_order/C20_empty/C20_binom/C20_binom64 are proved for all n and k about "
+        "explanation": "Theorems C20_enum/C20_iterator/C20_order/C20_empty/C20_binom/C20_binom_machine (every n < 2^64: no overflow, exact count or usize::MAX; defect D15 fixed by f71c4f2)/C20_binom64 are proved for all n and k about "
                        "the Gallina model SelModel.v (rank argument via Pascal's rule, completeness by counting). The model is tied "
                        "to util.rs by running the real iterator on every (n,k) up to the tier bound and comparing values, "
                        "size hints and binom exactly inside Coq.",
-        "trusted_base": ["modelled, not verified: src/util.rs (KSelectionIterator::next, size_hint, binom); usize overflow of binom "
-                         "is covered by C20_binom64 for n <= 57 only"],
+        "trusted_base": ["modelled, not verified: src/util.rs (KSelectionIterator::next, size_hint, binom); the machine arithmetic of binom "
+                         "(usize, 128-bit product, saturation) is modelled by SelModel.binom64 and covered by C20_binom_machine for every "
+                         "n < 2^64; size_hint's subtraction and sum of binoms only up to the enumerated n"],
         "assumptions": ["size_hint exactness is claimed for 1 <= k <= n only (for k = 0 the real size_hint reports 1 although "
                         "nothing is yielded; the property text does not cover that case)",
                         "the data slice is irrelevant: selections are determined by their index vectors"],
